@@ -228,7 +228,8 @@ func observe(f string, args []arg) []use {
 	}
 	out := fmt.Sprintf(f, w...)
 	// %T and %p are handled by fmt before it looks for a Formatter: they show as the operand's type name
-	if strings.Contains(out, "main.pi") || strings.Contains(out, "main.other") {
+	// (possibly truncated by a precision, hence the conservative test on the format bytes as well)
+	if strings.Contains(out, "main.pi") || strings.Contains(out, "main.other") || strings.ContainsAny(f, "Tp") {
 		r.uses = append(r.uses, use{'T', -1, false})
 	}
 	return r.uses
@@ -279,6 +280,9 @@ func inClaim(f string, args []arg, goOut string) (bool, string) {
 		}
 		if a.K == 'f' && (u.verb == 'x' || u.verb == 'X') && u.sharp {
 			return false, "sharp-x-on-float"
+		}
+		if a.K == 'f' && (u.verb == 'g' || u.verb == 'G') && u.sharp && a.F != 0 && math.Abs(a.F) < 1 {
+			return false, "sharp-g-leading-zeros(O29)"
 		}
 	}
 	if strings.Contains(goOut, "%!(EXTRA ") {
@@ -1041,6 +1045,9 @@ var probes = []probe{
 			}
 			return false, ""
 		}},
+	{"O29", "format-%#g-counts-leading-zeros-as-significant-digits", `format("%#.3g", 0.1)`,
+		"%#g / %#G on a float below 1 counts the leading zeros as significant digits: \"0.10\" where Go's fmt (since the port was taken) prints \"0.100\"",
+		fmtProbe("%#.3g", []arg{{K: 'f', F: 0.1}})},
 	{"O28", "format-without-arguments-returns-format-verbatim", `format("100%%"); format("%d"); fmt.sprintf("%%")`,
 		"with no arguments the format builtin and fmt.sprintf return the format string unprocessed (\"100%%\", \"%d\") where tengo.Format and Go's fmt give \"100%\" and \"%!d(MISSING)\"",
 		func() (bool, string) {
@@ -1226,4 +1233,61 @@ func replay(path string) {
 	}
 }
 
-func gspec(full bool) {}
+// gspec: the declarative spec G (Lean, Model/FormatSpec) against the real fmt.Sprintf, exhaustively over
+// single directives of the families G covers. The directive text is G's own `showDir`.
+func gspec(full bool) {
+	if drv == nil {
+		return
+	}
+	wids := []string{"-", "1", "7", "64"}
+	precs := []string{"-", "0", "1", "7", "64"}
+	type ga struct {
+		a     arg
+		verbs string
+	}
+	gargs := []ga{}
+	for _, n := range []int64{0, 1, -1, 65, 255, -256, 0xD800, 0x1F600, 0x110000, math.MaxInt64, math.MinInt64} {
+		gargs = append(gargs, ga{ai(n), "bdoOxXc"})
+	}
+	for _, s := range []string{"", "abc", "héllo wörld", "a\xffb\x01é", "日本語テキスト"} {
+		gargs = append(gargs, ga{as(s), "s"}, ga{ay(s), "s"})
+	}
+	gargs = append(gargs, ga{ab(true), "t"}, ga{ab(false), "t"})
+	if !full {
+		wids = []string{"-", "7"}
+		precs = []string{"-", "0", "7"}
+	}
+	var lines []string
+	var cases []arg
+	for _, g := range gargs {
+		for _, v := range []byte(g.verbs) {
+			for m := 0; m < 32; m++ {
+				for _, w := range wids {
+					for _, p := range precs {
+						lines = append(lines, lib.L("gfmt", lib.N(m), w, p, lib.N(int(v)), g.a.sexp()))
+						cases = append(cases, g.a)
+					}
+				}
+			}
+		}
+	}
+	ans, err := drv.Batch(lines)
+	if err != nil {
+		fatal(err)
+	}
+	for i, a := range ans {
+		parts := strings.Fields(a)
+		if len(parts) != 3 || parts[0] != "ok" {
+			res.Disagree(lib.Disagreement{Stream: "gspec", Input: lines[i], Model: a, Impl: "ok #<directive> #<text>"})
+			continue
+		}
+		fb, _ := hex.DecodeString(parts[1][1:])
+		gb, _ := hex.DecodeString(parts[2][1:])
+		want := goSprintf(string(fb), []arg{cases[i]})
+		res.Count("gspec", lines[i], true)
+		res.ModelLines++
+		if string(gb) != want {
+			res.Disagree(lib.Disagreement{Stream: "gspec", Input: map[string]interface{}{"line": lines[i], "format": string(fb)}, Model: strconv.Quote(string(gb)), Impl: strconv.Quote(want)})
+		}
+	}
+}
